@@ -16,7 +16,7 @@ RULE = ('algebra: (metric, configuration, 2..5 datasets some of them empty, a ra
         'histories: a generated sequence of new/add/merge(i<-j)/result operations over a pool of accumulators, each accumulator '
         'modelled by the list of rows it has absorbed, every result compared with the reference value of exactly that list; '
         'non-trivial = >= 3 states, or an empty state, or an add after a merge; distinct = distinct canonical case JSON'
-        '; also: data shifted by 2**24 for the mean / variance family (tolerance 1e-5 on shifted data), one n-ary merge_states call over 2..40 states as list/tuple/iterator/generator with an operand-intact check')
+        '; also: the directed history (an empty accumulator merges a filled one, then each side is updated and the other read), data shifted by 2**24 for the mean / variance family (tolerance 1e-5 on shifted data), one n-ary merge_states call over 2..40 states as list/tuple/iterator/generator with an operand-intact check')
 ASSUMPTIONS = [
     'same input preconditions as C01 (explicit vocab, equal sampler seeds, non-negative MinMaxAndCount input)',
     'results are only read from accumulators that absorbed >= 1 row (several metrics define no value for no data)',
@@ -275,6 +275,10 @@ def strat_history(tier):
                    st.tuples(st.just('merge'), st.integers(0, 5), st.integers(0, 5)).map(list),
                    st.tuples(st.just('result'), st.integers(0, 5), st.booleans()).map(list))
     ops = [['new'], ['new']] + draw(st.lists(op, min_size=2, max_size=maxops))
+    if draw(st.integers(0, 3)) == 0:
+      # an empty accumulator takes over a filled one, then each side is updated and the other one read
+      ops[2:2] = [['add', 1, draw(rows)], ['merge', 0, 0], ['add', 0, draw(rows)], ['result', 1, False], ['add', 1, draw(rows)],
+                  ['result', 0, True]]
     return {'entry': e.name, 'cfg': cfg, 'api': draw(st.sampled_from(list(e.apis))), 'ops': ops}
   return s()
 
